@@ -390,6 +390,8 @@ type FuncContract struct {
 	Assumes  []*Clause // explicit assumptions (listed in evidence)
 	Replay   string
 	IsLemma  bool
+	IsLua    bool
+	LuaOf    string
 }
 
 type ContractFile struct {
@@ -490,6 +492,11 @@ func parseContractFile(path, pkgPath string) (*ContractFile, error) {
 			cf.Funcs = append(cf.Funcs, cur)
 		case "lemma":
 			cur = &FuncContract{PkgPath: pkgPath, Loops: map[int]*LoopContract{}, File: path, Line: ln + 1, IsLemma: true, Key: "lemma:" + strings.TrimSpace(rest)}
+			curLoop = nil
+			cf.Funcs = append(cf.Funcs, cur)
+		case "lua":
+			nm := strings.TrimSpace(rest)
+			cur = &FuncContract{PkgPath: pkgPath, Loops: map[int]*LoopContract{}, File: path, Line: ln + 1, IsLua: true, LuaOf: "lua:" + nm, Key: "lua:" + nm}
 			curLoop = nil
 			cf.Funcs = append(cf.Funcs, cur)
 		case "pred":
